@@ -80,9 +80,12 @@ def simulate_recession(connection, parameter_file):
         """
     SELECT avg(evapotranspiration_mm_h) * 24
              AS evapotranspiration_mm_d
-    FROM evapotranspiration AS e
-    JOIN recession_interval AS ri
-      ON e.from_epoch = ri.start_epoch"""
+    FROM recession_interval AS ri
+    JOIN zeta_interval AS zi
+      ON zi.start_epoch = ri.start_epoch
+    JOIN evapotranspiration AS e
+      ON e.from_epoch >= zi.start_epoch
+      AND e.thru_epoch <= zi.thru_epoch"""
     )
     et_mm_d = cursor.fetchone()[0]
     assert et_mm_d >= 0, et_mm_d
